@@ -132,6 +132,12 @@ class Seq(V):
 
 
 @dataclass
+class Dv(V):
+    """dict literal with constant string keys"""
+    items: dict
+
+
+@dataclass
 class Mv(V):
     """image of an abstract sequence under a comprehension: for the generic element `each` of `src`, under the
     guards of a case the element is mapped to the case's value; elements failing the `if` clauses are dropped"""
@@ -926,6 +932,10 @@ class SX:
             return G('truth', (v.text,))
         if isinstance(v, (Cv, Fv)):
             return True
+        if isinstance(v, Uv):
+            return True if v.unit.lit is None else bool(v.unit.lit)     # a unit name accepted by a table is not ''
+        if isinstance(v, (Dv, Mv)):
+            return True
         raise CannotDecide(f'truth value of {v!r}')
 
     # ---- expressions (list of (State, V) | Outcome)
@@ -955,8 +965,41 @@ class SX:
             return [(st, self.const_value(n))]
         if isinstance(n, ast.Name):
             return [(st, self.name(n.id, st, frame))]
+        if isinstance(n, ast.JoinedStr) and self.eval_comprehensions:
+            # f-string over known pieces: text with <unit-name> placeholders for symbolic units
+            cur = [(st, '')]
+            for part in n.values:
+                nxt = []
+                for s_, text in cur:
+                    if isinstance(part, ast.Constant):
+                        nxt.append((s_, text + str(part.value)))
+                        continue
+                    for r in self.eval_x(part.value, s_, frame):
+                        if isinstance(r, Outcome):
+                            return [(st, Unk('<f-string>'))]
+                        v = r[1]
+                        if isinstance(v, Sv):
+                            piece = v.s
+                        elif isinstance(v, Uv):
+                            piece = v.unit.lit if v.unit.lit is not None else f'<{v.unit.sym}>'
+                        elif isinstance(v, Unk):
+                            piece = f'<{v.text}>'
+                        else:
+                            return [(st, Unk('<f-string>'))]
+                        nxt.append((r[0], text + piece))
+                cur = nxt
+            return [(s_, Sv(text)) for s_, text in cur]
         if isinstance(n, ast.JoinedStr):
             return [(st, Unk('<f-string>'))]
+        if isinstance(n, ast.Dict) and self.eval_comprehensions and n.keys and all(
+                isinstance(k, ast.Constant) and isinstance(k.value, str) for k in n.keys):
+            res = []
+            for r in self.eval_list(list(n.values), st, frame):
+                if isinstance(r, Outcome):
+                    res.append(r)
+                else:
+                    res.append((r[0], Dv({k.value: v for k, v in zip(n.keys, r[1])})))
+            return res
         if isinstance(n, ast.Attribute):
             if isinstance(n.value, ast.Call) and isinstance(n.value.func, ast.Name) and n.value.func.id == 'super' \
                     and not n.value.args:
@@ -1675,6 +1718,10 @@ class SX:
                 return base.items[i]
             except IndexError:
                 raise CannotDecide('index out of range')
+        if isinstance(base, Dv) and isinstance(idx, Sv):
+            if idx.s in base.items:
+                return base.items[idx.s]
+            raise CannotDecide(f'key {idx.s!r} not in the dict literal')
         if isinstance(base, Unk) and base.text.endswith('.__UNITS'):
             if isinstance(idx, Uv):
                 fam = base.text.split('.')[0]
@@ -1724,6 +1771,10 @@ class SX:
             return v.guard.show(self.ctx)
         if isinstance(v, Unk):
             return v.text
+        if isinstance(v, Mv):
+            return f'[{" | ".join(self.show(c[1]) for c in v.cases)} for each of {v.src}]'
+        if isinstance(v, Dv):
+            return '{' + ', '.join(f'{k!r}: {self.show(x)}' for k, x in v.items.items()) + '}'
         return repr(v)
 
     # ---- calls
@@ -1759,6 +1810,25 @@ class SX:
             return [(st, Unk(ast.unparse(n)[:80]))]
         res = []
         # callee
+        if not isinstance(f, (ast.Attribute, ast.Name)):
+            # computed callee, e.g. type(x)(value, unit)
+            for b in self.eval_x(f, st, frame):
+                if isinstance(b, Outcome):
+                    res.append(b)
+                    continue
+                s0, callee = b
+                for r in self.eval_list(argnodes + [v for _, v in kwnodes], s0, frame):
+                    if isinstance(r, Outcome):
+                        res.append(r)
+                        continue
+                    s, vals = r
+                    args = vals[:len(argnodes)]
+                    kwargs = {k: v for (k, _), v in zip(kwnodes, vals[len(argnodes):])}
+                    if isinstance(callee, Cv) and self.model.is_quantity(callee.name):
+                        res.extend(self.construct(n, callee.name, args, kwargs, s, frame))
+                    else:
+                        res.append((s.with_effect(('opaque-call', self.show(callee), args, kwargs, n.lineno)), Unk(ast.unparse(n)[:80])))
+            return res
         if isinstance(f, ast.Attribute):
             bases = self.eval_x(f.value, st, frame)
         else:
@@ -1945,6 +2015,8 @@ class SX:
             return [(st, Bv(t) if isinstance(t, bool) else Bsym(t))]
         if name == 'len' and len(args) == 1:
             return [(st, N(Rat.atom(f'len({self.show(args[0])})'), 'int'))]
+        if name == 'type' and len(args) == 1 and isinstance(args[0], Q):
+            return [(st, Cv(args[0].kind))]
         if name == 'type' and len(args) == 1 and isinstance(args[0], Ov):
             return [(st, Cv(args[0].cls or '?', of=args[0].path))]
         if name in m.functions and name in self.opaque_calls:
